@@ -15,14 +15,14 @@ from ..taps import RandomTap, installed
 
 ID = "C08"
 RULE = ("clique covers from (a) random clique hypergraphs, (b) real covers produced by gcmpy's own EECC / MPCC on random "
-        "graphs, (c) adversarial size sets {2,4},{2,5},{3,5,6},{4},{2,3,4,5,6,7},{2,7},{3,6}; ids contiguous from 0 or "
+        "graphs, (c) adversarial size sets {2,4},{2,5},{3,5,6},{4},{2,3,4,5,6,7},{2,7},{3,6}; (d) hub covers: one vertex in 250..400 (rarely > 65536) cliques of one size; ids contiguous from 0 or "
         "from 1; overlapping cliques; cliques as lists or tuples; non-trivial = >=2 sizes present and >=1 absent size "
         "below the maximum; distinct = SHA-1 of the concrete cover")
 ASSUMPTIONS = ["vertex ids contiguous from 0 or 1 and every vertex occurs in the cover (as the property stipulates)",
                "probabilities compared at 1e-12"]
-HEADLINE = ["covers", "src_random", "src_eecc", "src_mpcc", "src_adversarial", "one_based", "absent_sizes_ge2", "size_ge9", "vertices_recounted", "pipeline_runs", "pipeline_motifs"]
+HEADLINE = ["covers", "src_random", "src_eecc", "src_mpcc", "src_adversarial", "src_hub", "one_based", "absent_sizes_ge2", "size_ge9", "vertices_recounted", "pipeline_runs", "pipeline_motifs"]
 REQUIRED = {t: {"src_random": 10, "src_eecc": 5, "src_mpcc": 5, "src_adversarial": 10, "one_based": 10,
-                "absent_sizes_ge2": 10, "pipeline_runs": 10, "size_ge9": 10} for t in ("quick", "thorough")}
+                "absent_sizes_ge2": 10, "pipeline_runs": 10, "size_ge9": 10, "hub_count_ge_256": 10} for t in ("quick", "thorough")}
 
 
 def gen_cases(tier, seed):
@@ -37,8 +37,26 @@ def _contiguous(cover):
 
 
 def build_cover(rng, res):
-    src = rng.choice(["random", "random", "adversarial", "adversarial", "eecc", "mpcc"])
+    src = rng.choice(["random", "random", "adversarial", "adversarial", "eecc", "mpcc", "hub"])
     import gcmpy
+    if src == "hub":
+        # one vertex in very many cliques of one size (per-vertex counts beyond 255; every 12th hub beyond 65535)
+        big = rng.random() < 0.08
+        leaves = rng.randint(66000, 67000) if big else rng.randint(250, 400)
+        size = 2 if big else rng.choice([2, 2, 3])
+        cover, nxt = [], 1
+        for _ in range(leaves):
+            cover.append([0] + list(range(nxt, nxt + size - 1)))
+            nxt += size - 1
+        for _ in range(rng.randint(0, 12)):
+            cover.append(rng.sample(range(nxt), rng.choice([2, 3, 4])))
+        res.count("src_hub")
+        res.count("hub_count_ge_65536" if big else "hub_count_ge_256")
+        if rng.random() < 0.4:
+            cover = [[v + 1 for v in c] for c in cover]
+            res.count("one_based")
+        rng.shuffle(cover)
+        return src, cover
     if src in ("random", "adversarial"):
         if src == "random":
             sizes = rng.sample(range(2, 8), rng.randint(1, 4)) if rng.random() < 0.7 else rng.sample(range(2, 20), rng.randint(1, 5))
@@ -128,7 +146,7 @@ def check_cover(res, cover, rng, path):
     if max(sizes) >= 9:
         res.count("size_ge9")
     # pipeline: sample and generate with clique motifs of the reported sizes
-    if rng.random() < 0.35:
+    if rng.random() < 0.35 and n < 5000:
         res.count("pipeline_runs")
         tap = RandomTap(seed=rng.randrange(1 << 30), keep_log=False)
         with installed(tap, "jd", "fast"):
@@ -175,5 +193,5 @@ def run_case(case):
     nt = check_cover(res, cover, rng, path)
     res.nontrivial = bool(nt)
     res.digest = digest(snapshot)
-    res.sample = {"source": src, "path": path, "cover": snapshot}
+    res.sample = {"source": src, "path": path, "cover": snapshot if len(snapshot) < 60 else snapshot[:60] + ["... %d cliques" % len(snapshot)]}
     return res
